@@ -931,6 +931,52 @@ func c07(c *core.Ctx) {
 	c.Clause("C07.8", "the journal is used all-or-nothing: in each of the six EVM entry points every path on which the frame ends in an error — also the conditions that only become an error later, like an oversized created code — passes RevertToSnapshot with the frame's snapshot (clause C16.4, evaluated here as well)")
 	c.Run("evm-revert", func() { c16Revert(c) })
 
+	c.Clause("C07.10", "book-keeping the journal does not restore exactly is not observable: the provisional per-type version map of an account (revert resets its values, not which keys it holds) is read by the version accessor only")
+	c.Run("provisional-versions-not-observable", func() {
+		f := c.FieldVar("chain/account.Account", "newestRecords")
+		allowed := map[string]bool{"(*chain/account.Account).GetNextVersion": true}
+		n := 0
+		for _, fn := range c.SrcFuncs {
+			if isTestHelper(c, fn) {
+				continue
+			}
+			for _, b := range fn.Blocks {
+				for _, in := range b.Instrs {
+					ld, ok := in.(*ssa.UnOp)
+					if !ok || ld.Op != token.MUL {
+						continue
+					}
+					fa, ok := ld.X.(*ssa.FieldAddr)
+					if !ok || core.FieldOf(fa) != f {
+						continue
+					}
+					// the loaded map is only written (m[k] = v) or read (lookup, len, range, handed on)
+					read := false
+					if refs := ld.Referrers(); refs != nil {
+						for _, r := range *refs {
+							switch x := r.(type) {
+							case *ssa.MapUpdate:
+								if x.Map != ssa.Value(ld) {
+									read = true
+								}
+							case *ssa.DebugRef:
+							default:
+								read = true
+							}
+						}
+					}
+					if !read {
+						continue
+					}
+					n++
+					name := core.FuncName(core.Outer(fn))
+					c.Check("reads/Account.newestRecords@"+name, "who-may-read", allowed[name] || ownedBy(c, fn, allowed, 0), ld.Pos(), "%s reads the provisional version map; only the version accessor may (what revert leaves in it differs from a fresh account)", name)
+				}
+			}
+		}
+		c.Floor("reads/Account.newestRecords", n, 1)
+	})
+
 	c.NotDecidedf("that undo restores the same VALUE (only that it writes the same locations from the recorded OldVal); deep-copy aliasing of OldVal; nesting/interleaving behaviour of snapshots as histories; equality of replayed and executed state")
 }
 
